@@ -4,14 +4,14 @@ import PkVerif.Spec.SortedKV
 
 Both underlying stores are `Pk.SortedKV` stores (the harness builds `buffer.New` over two
 `sorted.NewMemoryKeyValue()`).  The merge iterator is modelled step by step (`SubIter.next`,
-`Iter.current`, `Iter.next`), as the code is after the `fix:` commit a9fb580; the iterator as it was
+`Iter.current`, `Iter.next`), as the code is after the `fix:` commits a9fb580 and 35f9fac; the iterator as it was
 before that commit is kept as `Iter.nextOld` (sentinel `key == ""`, and the `!it.buf.eof` typo).
 Core Lean only (linked into `pkmodel-c10`).
 -/
 namespace Pk.SortedBuffer
 open Pk Pk.SortedKV
 
-/-- `subIter` (buffer.go:301-306) around an underlying `sorted.Iterator` over the rows `rest` -/
+/-- `subIter` (buffer.go:308-312) around an underlying `sorted.Iterator` over the rows `rest` -/
 structure SubIter where
   /-- rows the underlying iterator has not produced yet -/
   rest : KV
@@ -29,7 +29,7 @@ structure SubIter where
 
 def SubIter.start (l : KV) : SubIter := ⟨l, none, [], false, false⟩
 
-/-- `subIter.next` (buffer.go:308-315) -/
+/-- `subIter.next` (buffer.go:314-321) -/
 def SubIter.next (s : SubIter) : SubIter × Bool :=
   match s.rest with
   | [] => ({ s with cur := none, eof := true, overrun := s.overrun || s.eof }, false)
@@ -41,28 +41,28 @@ def SubIter.value (s : SubIter) : Bytes :=
   | some p => p.2
   | none => []
 
-/-- `iter` (buffer.go:223-226) -/
+/-- `iter` (buffer.go:225-228) -/
 structure Iter where
   buf : SubIter
   back : SubIter
   started : Bool
   deriving DecidableEq, Repr
 
-/-- `KeyValue.Find` (buffer.go:192-200) given the rows both underlying `Find`s will produce -/
+/-- `KeyValue.Find` (buffer.go:193-201) given the rows both underlying `Find`s will produce -/
 def Iter.start (bufRows backRows : KV) : Iter := ⟨SubIter.start bufRows, SubIter.start backRows, false⟩
 
-/-- `iter.current` (buffer.go:228-239) -/
+/-- `iter.current` (buffer.go:230-241) -/
 def Iter.current (it : Iter) : SubIter :=
   if it.back.eof then it.buf
   else if it.buf.eof then it.back
   else if leB it.buf.key it.back.key then it.buf
   else it.back
 
-/-- `iter.Key` / `iter.Value` (buffer.go:279-285) -/
+/-- `iter.Key` / `iter.Value` (buffer.go:281-287) -/
 def Iter.key (it : Iter) : Bytes := it.current.key
 def Iter.value (it : Iter) : Bytes := it.current.value
 
-/-- the part of `iter.Next` after the start handling (buffer.go:249-275) -/
+/-- the part of `iter.Next` after the start handling (buffer.go:251-279) -/
 def Iter.advance (it : Iter) : Iter × Bool :=
   if it.buf.eof && it.back.eof then (it, false)
   else if it.buf.eof then ({ it with back := it.back.next.1 }, it.back.next.2)
@@ -71,7 +71,7 @@ def Iter.advance (it : Iter) : Iter × Bool :=
   else if ltB it.back.key it.buf.key then ({ it with back := it.back.next.1 }, true)
   else ({ it with buf := it.buf.next.1, back := it.back.next.1 }, it.buf.next.2 || it.back.next.2)
 
-/-- `iter.Next` (buffer.go:241-275, after fix a9fb580): the first call advances both sides -/
+/-- `iter.Next` (buffer.go:243-279, after fix a9fb580): the first call advances both sides -/
 def Iter.next (it : Iter) : Iter × Bool :=
   if !it.started then
     ({ buf := it.buf.next.1, back := it.back.next.1, started := true }, it.buf.next.2 || it.back.next.2)
@@ -100,7 +100,7 @@ def Iter.finalWith (nx : Iter → Iter × Bool) : Nat → Iter → Iter
   | 0, it => it
   | n + 1, it => if (nx it).2 then finalWith nx n (nx it).1 else (nx it).1
 
-/-- `buffer.KeyValue` (buffer.go:45-57) -/
+/-- `buffer.KeyValue` (buffer.go:44-54) -/
 structure Buf where
   buf : KV
   back : KV
@@ -110,10 +110,10 @@ structure Buf where
   buffered : Nat
   deriving DecidableEq, Repr
 
-/-- `New` (buffer.go:35-41) over two empty stores -/
+/-- `New` (buffer.go:34-40) over two empty stores -/
 def Buf.new (maxBuffer : Int) : Buf := ⟨[], [], maxBuffer, 0⟩
 
-/-- `Flush` (buffer.go:59-87): everything in the buffer is set in the backing store in one batch and
+/-- `Flush` (buffer.go:56-91, after fix 35f9fac): everything in the buffer is set in the backing store in one batch and
 deleted from the buffer in another; nothing happens when the buffer is empty -/
 def Buf.flush (L : Limits) (b : Buf) : Buf :=
   let items := SortedKV.find b.buf [] []
@@ -122,13 +122,23 @@ def Buf.flush (L : Limits) (b : Buf) : Buf :=
                 buf := batch L b.buf (items.map fun p => Mut.del p.1),
                 buffered := 0 }
 
-/-- `Get` (buffer.go:89-102): the buffer shadows the backing store -/
+/-- (`BeginBatch`, `CommitBatch`) calls `Flush` makes on the backing store: the batches are begun only
+when there is a row to flush (fix 35f9fac), so every begun batch is committed -/
+def Buf.flushBatchCalls (b : Buf) : Nat × Nat :=
+  if (SortedKV.find b.buf [] []).isEmpty then (0, 0) else (1, 1)
+
+/-- before 35f9fac `Flush` began both batches up front and committed them only when the buffer held
+a row (sqlkv's BeginBatch opens a transaction and takes the gate slot: the next op blocked) -/
+def Buf.flushBatchCallsOld (b : Buf) : Nat × Nat :=
+  (1, if (SortedKV.find b.buf [] []).isEmpty then 0 else 1)
+
+/-- `Get` (buffer.go:93-106): the buffer shadows the backing store -/
 def Buf.get (b : Buf) (k : Bytes) : Option Bytes :=
   match SortedKV.get b.buf k with
   | some v => some v
   | none => SortedKV.get b.back k
 
-/-- `Set` (buffer.go:104-121): oversize ⇒ nothing; else set in the buffer, account the bytes, flush
+/-- `Set` (buffer.go:108-125): oversize ⇒ nothing; else set in the buffer, account the bytes, flush
 when over `maxBuffer` (so `maxBuffer ≤ 0` flushes on every Set) -/
 def Buf.set (L : Limits) (b : Buf) (k v : Bytes) : Buf :=
   if okSizes L k v then
@@ -136,11 +146,11 @@ def Buf.set (L : Limits) (b : Buf) (k v : Bytes) : Buf :=
     if (b1.buffered : Int) > b1.maxBuffer then b1.flush L else b1
   else b
 
-/-- `Delete` (buffer.go:123-139): synchronously from both stores -/
+/-- `Delete` (buffer.go:127-142): synchronously from both stores -/
 def Buf.delete (b : Buf) (k : Bytes) : Buf :=
   { b with buf := erase k b.buf, back := erase k b.back }
 
-/-- the batch applied to the buffer store by `CommitBatch` (buffer.go:155-171) -/
+/-- the batch applied to the buffer store by `CommitBatch` (buffer.go:156-176) -/
 def bufMuts (L : Limits) : List Mut → List Mut
   | [] => []
   | .del k :: ms => .del k :: bufMuts L ms
@@ -152,20 +162,20 @@ def backMuts : List Mut → List Mut
   | .del k :: ms => .del k :: backMuts ms
   | .set _ _ :: ms => backMuts ms
 
-/-- `CommitBatch` (buffer.go:145-180): sets go to the buffer, deletes to both; does not count
+/-- `CommitBatch` (buffer.go:148-184): sets go to the buffer, deletes to both; does not count
 towards `buffered` -/
 def Buf.commitBatch (L : Limits) (b : Buf) (ms : List Mut) : Buf :=
   let b1 : Buf := { b with buf := batch L b.buf (bufMuts L ms) }
   if (backMuts ms).isEmpty then b1 else { b1 with back := batch L b.back (backMuts ms) }
 
-/-- `Find` (buffer.go:192-200) iterated to its end.  The Go loop is unbounded; the fuel is the number
+/-- `Find` (buffer.go:193-201) iterated to its end.  The Go loop is unbounded; the fuel is the number
 of rows of both sides plus one, which `C10_buffer_find_fuel` shows is never exhausted. -/
 def Buf.find (b : Buf) (s e : Bytes) : KV :=
   let A := SortedKV.find b.buf s e
   let B := SortedKV.find b.back s e
   (Iter.start A B).collect (A.length + B.length + 1)
 
-/-- `Close` (buffer.go:182-190) followed by `New(fresh memory store, same backing, same max)` -/
+/-- `Close` (buffer.go:186-191) followed by `New(fresh memory store, same backing, same max)` -/
 def Buf.reopen (L : Limits) (b : Buf) : Buf :=
   { b.flush L with buf := [], buffered := 0 }
 
